@@ -16,8 +16,10 @@ package bfe_spdy
 //     out of the pipe and is telling the serve loop),
 //   - a handler's frame (the SYN_REPLY of a return, the PanicFrame of a panic) in sc.writeMsgChan,
 //   - a fired read-stream timer in sc.timeoutEventCh,
-// and the ready inputs - including completed frame writes on sc.wroteChan (thorough) and inputs
-// that become ready meanwhile - are taken in EVERY order. Then everything left is drained, the
+//   - a completed frame write waiting on sc.wroteChan: a frame of a stream (in particular the
+//     final, FIN-carrying frame of a response) has been handed to the writer goroutine and the
+//     serve loop processes client frames for that stream BEFORE it learns the write result,
+// and the ready inputs - including inputs that become ready meanwhile - are taken in EVERY order. Then everything left is drained, the
 // client resets what is still open, the handlers return, and the ledger oracle of the other
 // families applies: session window fully returned, never over-credited, no serve-loop panic.
 
@@ -34,7 +36,7 @@ import (
 const c40timeoutS = 10 // read-stream timeout the handlers arm (seconds of the fake clock)
 
 type c40pf struct {
-	kind string // "RST" | "D" | "WU0" | "WUS"
+	kind string // "RST" | "D" | "WU0" | "WUS" | "SYNDUP" (SYN_STREAM re-using the stream's id)
 	si   int
 	n    int
 	fin  bool
@@ -56,7 +58,7 @@ func (f c40pf) String() string {
 
 type c40pset struct {
 	frames []c40pf
-	hact   []string // per stream: "" | "R2" | "R64" | "RET" | "PANIC"
+	hact   []string // per stream: "" | "R2" | "R64" | "RET" | "WF" | "PANIC"
 	timer  bool
 }
 
@@ -98,7 +100,7 @@ type c40setup struct {
 func c40psets(nstreams int, thorough bool) []c40pset {
 	var single []c40pf
 	for si := 0; si < nstreams; si++ {
-		single = append(single, c40pf{kind: "RST", si: si}, c40pf{kind: "D", si: si, n: 1}, c40pf{kind: "D", si: si, n: 3})
+		single = append(single, c40pf{kind: "RST", si: si}, c40pf{kind: "D", si: si, n: 1}, c40pf{kind: "D", si: si, n: 3}, c40pf{kind: "SYNDUP", si: si})
 		if thorough {
 			single = append(single, c40pf{kind: "D", si: si, n: 1, fin: true}, c40pf{kind: "WUS", si: si})
 		}
@@ -114,7 +116,7 @@ func c40psets(nstreams int, thorough bool) []c40pset {
 				continue
 			}
 			// a client does not send DATA (or a second RST) on a stream it has reset or ended
-			if (a.kind == "RST" || a.fin) && a.si == b.si && (b.kind == "D" || b.kind == "RST") {
+			if (a.kind == "RST" || a.fin) && a.si == b.si && (b.kind == "D" || b.kind == "RST" || b.kind == "SYNDUP") {
 				continue
 			}
 			if a.kind == "WU0" && b.kind == "WUS" || a.kind == "WUS" && b.kind == "WU0" {
@@ -124,6 +126,11 @@ func c40psets(nstreams int, thorough bool) []c40pset {
 		}
 	}
 	acts := []string{"", "R2", "RET"}
+	if nstreams == 1 {
+		// with two streams a handler that continues after its first frame (SYN_REPLY, then DATA)
+		// would make the set of ready inputs depend on the write scheduler's map order
+		acts = append(acts, "WF")
+	}
 	if thorough {
 		acts = append(acts, "R64", "PANIC")
 	}
@@ -157,6 +164,7 @@ func c40setups(thorough bool) []c40setup {
 		{"read1of3", 1, []string{"H0", "D3@0", "R1@0"}},
 		{"empty", 1, []string{"H0"}},
 		{"declared2of2", 1, []string{"HC0", "D2@0"}}, // content-length 2: any further DATA is a stream error
+		{"get", 1, []string{"HG0"}},                   // GET with FLAG_FIN: half-closed(remote), the response's last frame closes the stream
 	}
 	if thorough {
 		ss = append(ss, c40setup{"two-buffered", 2, []string{"H0", "D3@0", "H1", "D3@1"}})
@@ -237,15 +245,22 @@ func c40selexec(t *testing.T, r *vk.Run, setups []c40setup, sets map[int][]c40ps
 			switch {
 			case strings.HasPrefix(ev, "HC"), strings.HasPrefix(ev, "H"):
 				var extra []string
+				method, fin := "POST", false
 				if strings.HasPrefix(ev, "HC") {
 					fmt.Sscanf(ev, "HC%d", &si)
 					extra = []string{"content-length", "2"}
+				} else if strings.HasPrefix(ev, "HG") {
+					fmt.Sscanf(ev, "HG%d", &si)
+					method, fin = "GET", true
 				} else {
 					fmt.Sscanf(ev, "H%d", &si)
 				}
 				s := m.streams[si]
+				if fin {
+					s.fin, s.kind = true, "get"
+				}
 				L.queued++
-				e.synStream(s.id, "POST", s.path, false, extra...)
+				e.synStream(s.id, method, s.path, fin, extra...)
 				m.maxID = s.id
 				L.drain()
 				if h := e.handler(s.path); h != nil {
@@ -283,6 +298,8 @@ func c40selexec(t *testing.T, r *vk.Run, setups []c40setup, sets map[int][]c40ps
 		}
 		var queue []pframe
 		var wire []byte
+		var dupPaths []string
+		nDup := 0
 		for _, pf := range set.frames {
 			var s *c40stream
 			if pf.kind != "WU0" {
@@ -298,7 +315,17 @@ func c40selexec(t *testing.T, r *vk.Run, setups []c40setup, sets map[int][]c40ps
 			case "WUS":
 				wire = append(wire, c40ctl(TypeWindowUpdate, s.id, 5)...)
 				s.outWin += 5
+			case "SYNDUP":
+				nDup++
+				dupPaths = append(dupPaths, fmt.Sprintf("/dup%d", nDup))
+				wire = append(wire, e.synBytes(s.id, dupPaths[len(dupPaths)-1])...)
 			case "D":
+				if s.fin {
+					// DATA the client knowingly sends on a stream it has half-closed
+					wire = append(wire, c40dataBytes(s.id, pf.fin, c40fill(pf.n, 'Z'))...)
+					m.ambiguous += pf.n
+					break
+				}
 				wire = append(wire, c40dataBytes(s.id, pf.fin, c40fill(pf.n, 'a'))...)
 				s.sentFC += pf.n
 				m.totalFC += pf.n
@@ -329,6 +356,8 @@ func c40selexec(t *testing.T, r *vk.Run, setups []c40setup, sets map[int][]c40ps
 			case "RET":
 				h.do(s3cmd{op: "return"})
 				s.returned = true
+			case "WF":
+				h.do(s3cmd{op: "writeflush", n: 20}) // SYN_REPLY, then DATA: two writes in flight one after the other
 			case "PANIC":
 				h.do(s3cmd{op: "panic"})
 				s.panicked = true
@@ -364,7 +393,7 @@ func c40selexec(t *testing.T, r *vk.Run, setups []c40setup, sets map[int][]c40ps
 				if !L.step("READ") {
 					panic("c40 selord: client frame not offered on recvChan (harness bug)")
 				}
-				if pq.f.kind == "D" && st != nil && st.bodyBytes == before+int64(pq.f.n) {
+				if pq.f.kind == "D" && pq.f.n > 0 && st != nil && st.bodyBytes == before+int64(pq.f.n) {
 					pq.s.accepted += pq.f.n
 				}
 				settle()
@@ -428,6 +457,14 @@ func c40selexec(t *testing.T, r *vk.Run, setups []c40setup, sets map[int][]c40ps
 		c40fold(e, m)
 		hist = append(hist, "DRAINED")
 		c40invariants(r, id, hist, e, m)
+		for _, p := range dupPaths {
+			if e.handler(p) != nil {
+				r.Violation("invalid-syn:dup:handler-started", id, fmt.Sprintf("a SYN_STREAM re-using a stream id started a handler after %v", hist))
+			}
+		}
+		if L.ended && len(e.panics) == 0 {
+			r.Violation("connection-dropped:pending-inputs", id, fmt.Sprintf("the serve loop ended the connection (no GOAWAY, no panic recorded) after %v", hist))
+		}
 
 		// epilogue: the client resets what is still open, the handlers return
 		if !m.connDead && !L.ended {
@@ -503,7 +540,7 @@ func c40selord(t *testing.T, r *vk.Run) {
 	var nth int64
 	n := vk.ExploreSharded(r, "selord", 2, -1, func(ch *vk.Chooser) {
 		nth++
-		c40selexec(t, r, setups, sets, r.Thorough(), ch, nth)
+		c40selexec(t, r, setups, sets, true, ch, nth)
 	}, func() bool {
 		if r.Expired("c40 selord") {
 			complete = false
